@@ -1,6 +1,6 @@
 """Single source of truth for MANIFEST.json (tools/mkmanifest.py)."""
 
-FIX_COMMITS = ['cca4fac (C19 bbox int coercion)', '1b3ab08 28009fb (C05 cutout fill dtype / out-of-range integer fill)', '81c7236 (C05 multiply Quantity fill)', '1970dc7 e443d7c (C20 PixCoord.rotate any shape / differences in float)', 'c13e427 032fdea 32d7f72 (C01 polygon scalar contains / ellipse+rectangle offsets in float F1c / regular polygon follows assigned parameters F1r)', 'b692b96 (C14 FITS lexists)', 'd5e55fe (C14 encode before open)', '7575e32 ccc4c00 50480bb b15a97b d623722 727d915 942a7aa ec59199 (C17 validators (+ huge Python ints F11b)/meta/list (+ one-shot iterables in the constructor F13c and in extend F13d)/nvertices/text)', 'd91a439 7c95242 bdc0d0d 562b011 (C12 FITS exclude prefix / include+component / component dtype / ROTANG degrees)', '23f75f4 4b5524a 7cc5a6b fa5f94a (C16/C06 compound sky meta, shape-mismatch ==, symmetric PixCoord ==, DS9 Path markers survive copy F15m)', 'dca4ab5 4987549 cb1965c (C18 text kwargs aliases / polygon origin in float F182 / circle radius float F183)', 'be2b52e f813781 bd2caa9 1c54a50 e6a38a6 3370b62 (C10 DS9 reader; last two: composite properties F105/F106)', 'd58a058 80f2f4f 193fdcf b51f440 (C09 DS9 writer; last one: frame attributes F35)', '90d029a 48bc62d 5176ec4 3bd1349 e7c5f7b 10da16e 120394c (C11/C13 CRTF; last one: frame attributes F34)', 'b532b53 (C06 point/line/text sky contains() shape F203)']
+FIX_COMMITS = ['cca4fac (C19 bbox int coercion)', '1b3ab08 28009fb (C05 cutout fill dtype / out-of-range integer fill)', '81c7236 (C05 multiply Quantity fill)', '1970dc7 e443d7c (C20 PixCoord.rotate any shape / differences in float)', 'c13e427 032fdea 32d7f72 d3bcfe5 (C01 polygon scalar contains / ellipse+rectangle offsets in float F1c / regular polygon follows assigned parameters F1r)', 'b692b96 (C14 FITS lexists)', 'd5e55fe (C14 encode before open)', '7575e32 ccc4c00 50480bb b15a97b d623722 727d915 942a7aa ec59199 (C17 validators (+ huge Python ints F11b)/meta/list (+ one-shot iterables in the constructor F13c and in extend F13d)/nvertices/text)', 'd91a439 7c95242 bdc0d0d 562b011 (C12 FITS exclude prefix / include+component / component dtype / ROTANG degrees)', '23f75f4 4b5524a 7cc5a6b fa5f94a (C16/C06 compound sky meta, shape-mismatch ==, symmetric PixCoord ==, DS9 Path markers survive copy F15m)', 'dca4ab5 4987549 cb1965c (C18 text kwargs aliases / polygon origin in float F182 / circle radius float F183)', 'be2b52e f813781 bd2caa9 1c54a50 e6a38a6 3370b62 (C10 DS9 reader; last two: composite properties F105/F106)', 'd58a058 80f2f4f 193fdcf b51f440 (C09 DS9 writer; last one: frame attributes F35)', '90d029a 48bc62d 5176ec4 3bd1349 e7c5f7b 10da16e 120394c (C11/C13 CRTF; last one: frame attributes F34)', 'b532b53 (C06 point/line/text sky contains() shape F203)']
 HOOK_COMMITS = []
 
 CHECKS = [
@@ -115,7 +115,8 @@ CHECKS = [
     {'property_id': 'C18',
      'technique': 'Lean 4 theorems with matplotlib patch semantics as stated parameters (rotation algebra, shoelace/winding reversal lemmas, association-list precedence); correspondence with a winding-number oracle on the real transformed paths (by builder)',
      'text': 'For all parameters/origins/unit vectors: the point set of the Rectangle/Ellipse/Circle/Polygon patch built from the code arguments equals the region point set shifted by -origin (degrees vs radians, corner, width/height order), '
-             'annulus path = outer ++ reversed inner with negated winding (a hole under the non-zero rule; un-reversed would fill it), points/text/lines at position - origin, caller kwargs override visual override defaults (after normalisation of aliases).',
+             'annulus path = outer ++ reversed inner with negated winding (a hole under the non-zero rule; un-reversed would fill it), points/text/lines at position - origin, caller kwargs override visual override defaults (after normalisation of aliases). '
+             'The curve-approximation tolerance is a theorem (Props/C18Bezier): every point of the 8 cubic Bezier segments of matplotlib\'s unit circle has radius in [1 - 3.85e-6, 1 + 2.8e-6] (Bernstein-coefficient certificates after de Casteljau subdivision; also for control points within delta of the ideal ones, +-2 delta), the polar angle increases strictly along each segment and the curve closes; hence the outline of any Circle/Ellipse patch lies between the ellipses scaled by those factors.',
      'note': 'Partial: matplotlib constructor/path semantics are parameters; validated on real patches by flattening Beziers and computing winding numbers (3e-4 boundary band for curves). F181/F181b fixed in /repo (dca4ab5).'},
     {'property_id': 'C03',
      'technique': 'Lean 4 theorems over R (Mathlib: FTC, arcsin/chord identities, Lebesgue measure of regions between graphs, convex hulls, linear change of variables) about template-generated models of the circle AND ellipse exact kernels (same text instantiated over Float for execution, bit-identical to the compiled kernel); differential run against the compiled kernel and a 50-digit closed-form integration oracle',
@@ -125,7 +126,7 @@ CHECKS = [
              'overlapTri_correct_partial: for every triangle in the class Good (all vertices inside or on; two in / one out; one in / two out incl. the pi - arc and the two-crossing branch; none in with or without chord recursion; vertices outside the 1e-10 tolerance ring, edges not tiny) the routine returns exactly the measure of triangle ∩ unit disk, hence ellipseCell_eq_volume_good: the cell value = area(pixel ∩ ellipse)/(dx dy) in [0,1]. '
              'The full statement is REFUTED by two theorems at rational inputs (on1_branch_refuted, on2_branch_refuted) = open findings F3a / F3b (a pixel corner exactly on the ellipse), confirmed on the real library. '
              'Convergence (Props/C03Converge): for every circle and every ellipse (any unit direction), every pixel and every n > 0, |sub-pixel mask cell - area(pixel ∩ open shape)| <= 2/n (circle_mask_converges, ellipse_mask_converges; abstract form sampled_error_quasiconcave for any shape whose vertical slices are open intervals of continuous quasi-concave length; per column two threshold counts within 1/(2n), across columns the midpoint rule of a unimodal function). '
-             'Sub-pixel values are k/n^2 in [0,1] (C02). NOT proved (validated only): that the IEEE-double evaluation stays within 1e-8 of the real value; the remaining on-vertex sub-branches and the tolerance ring of the ellipse routine; the convergence bound for rotated rectangles and polygons (their slices are not open intervals).',
+             'Sub-pixel values are k/n^2 in [0,1] (C02). NOT proved (validated only): that the IEEE-double evaluation stays within 1e-8 of the real value; the remaining on-vertex sub-branches and the tolerance ring of the ellipse routine; the convergence bound for polygons (rotated rectangles: rect_mask_converges, 2/n, Props/C03ConvergeConvex - the sandwiched column lemma admits any boundary convention and the running-maximum decomposition needs no continuity; convex polygons would need a variant with exceptional points per column).',
      'note': 'Partial proof: floating-point evaluation is validated by a differential run: Float instance of the SAME Lean text vs the compiled kernel (circle 1e-12, ellipse bit-identical on all cells so far), and kernel vs an independent closed-form integration oracle evaluated with 50-60 digits (1e-8); convergence with the explicit constant 4L/n + 4m/n^2. Open findings F3a, F3b (not repairable here: Cython source, no compiler). '
              'Trusted: Lean kernel + 3 std axioms; tools/instantiate.py (one template, two instances); libm.'},
     {'property_id': 'C06',
